@@ -592,6 +592,13 @@ pub fn listen<S: ?Sized + AsRef<str>, H: crate::ConnectionHandler + Send + Sync 
     );
 
     loop {
+        if let Some(stop) = listen_config.stop_listening.as_ref() {
+            // also between two connections: a steady stream of clients must not
+            // keep the flag from being seen
+            if stop.load(Ordering::SeqCst) {
+                return Ok(());
+            }
+        }
         let mut to_wait = listen_config.idle_timeout * 1000;
         let wait_time = listen_config
             .stop_listening
